@@ -1,4 +1,5 @@
 import Mkdb.Proofs.Redo
+import Mkdb.Proofs.TornFlush16
 /-!
 # C04 — a crash while the page cache is being flushed loses nothing
 
@@ -12,6 +13,16 @@ Partial: the theorem is about page-local records.  A flush torn between the page
 (allocation of new pages, the header write that persists the allocation frontier) is outside it;
 that is where the implementation actually fails (known finding `db:fimage-…:alloc1`), and what the
 crash-image runs of the check explore.
+
+Second part (namespace `Mkdb.Store`, proofs in `Proofs/TornFlush1-11.lean` and `TornFlushLK.lean`): the
+same for the CONCRETE recovery model `Mkdb.Engine.recover` / `replayAll` on REAL logs - INSERT records
+included, whose page field names the ROOT of the table, whose skip test reads the root page and whose
+redo runs through the tree and tolerates a key that is already there - for every flush torn while no
+page was allocated since the last complete flush (class `alloc0`):
+`C04_torn_flush_without_allocation_recovers`, `C04_rounds_with_torn_flushes`,
+`C04_any_mixture_of_boundary_pages_recovers` (each page of the data file as of ANY statement boundary
+since the checkpoint), `C04_replay_over_any_mixture_of_page_versions` (as of any RECORD boundary, about
+`replayAll` itself).
 -/
 namespace Mkdb.Redo
 variable {α : Type}
@@ -40,3 +51,194 @@ theorem C04_write_ahead_needed :
   decide
 
 end Mkdb.Redo
+
+namespace Mkdb.Store
+open Mkdb.Engine Mkdb.Tree Mkdb.Page Mkdb.Generated
+
+/-- **C04.torn_flush_without_allocation_recovers** (concrete recovery model, real logs).  `db` is a
+checkpointed database (`Ckpt`: what every complete flush and every recovery leave: everything in the data
+file, the never truncated log applied); the engine runs any INSERT / UPDATE / DELETE statements the plain
+model accepts (`SpecRun`) and reaches `dbN`; the statements allocated no page - no leaf split, no root
+move (`hnf`: the allocation frontier is where it was; a decidable condition on the two stores).  Then
+the page cache is flushed - by the timer, by shutdown, by whoever - the pages are written in ANY order
+`order`, and the process dies before the `j`-th page write, for ANY `j` (`j ≥ order.length`: every page
+written, the header not; the case "header written too" is the complete flush, `C02_rounds_*`).  Start-up
+recovery `Engine.recover` on that data file (`tornFlush dbN.store order j`) and the complete log
+SUCCEEDS, for any write orders `o1 o2` of its own two flushes; it keeps the log; and its result is
+again a checkpointed database, for the plain database `sdbN` of ALL acknowledged statements
+(`Ckpt … sdbN …` contains `AbsV db'.store … sdbN`: every table holds exactly their effects), with the
+same catalog description as after a crash in which nothing had been flushed; the allocation frontier
+and the catalog root are the live ones; the row-id counter is not behind the live one and not behind
+the key of any logged INSERT (`Ckpt.keys`): no row id is handed out twice; the LSN counter is not
+behind the live one.
+
+What the hypothesis excludes: a run in which a page was allocated (leaf or internal split, root move,
+CREATE TABLE) since the last complete flush - there the real code loses data when the flush is torn
+between the pages involved (known finding, class `alloc1`), and the statement is false. -/
+theorem C04_torn_flush_without_allocation_recovers {sch : Levels} {db dbN : Engine.DB} {sdb sdbN : Spec.SDB}
+    {stmts : List EStmt} {pt : Levels} {tbls : List (Bytes × Levels)} (h : Ckpt sch db sdb pt tbls)
+    (run : SpecRun sch db sdb stmts dbN sdbN) (hnf : dbN.store.hdr.nextFree = db.store.hdr.nextFree)
+    (order : List Nat) (j : Nat) (o1 o2 : List Nat) :
+    ∃ db' tblsL, Engine.recover { store := tornFlush dbN.store order j, wal := dbN.wal } o1 o2 = .ok db' ∧
+      db'.wal = dbN.wal ∧ AbsV dbN.store pt sch tblsL sdbN ∧ Ckpt sch db' sdbN (clean pt) (cleanT tblsL) ∧
+      db'.store.hdr.nextFree = dbN.store.hdr.nextFree ∧ dbN.store.hdr.lastKey ≤ db'.store.hdr.lastKey ∧
+      db'.store.hdr.ptRoot = dbN.store.hdr.ptRoot ∧ dbN.store.hdr.nextLSN ≤ db'.store.hdr.nextLSN :=
+  h.torn_flush_round run hnf order j o1 o2
+
+/-- **C04.torn_flush_example** (non-vacuity of the theorem above, every state computed by the model):
+`CREATE DATABASE`; `CREATE TABLE t (a INT)` (`tableDB`, checkpointed: `ckpt_tableDB`);
+`INSERT INTO t VALUES (5), (6)`; `UPDATE t SET a = 7 WHERE a = 5` - three log records, no allocation; the
+flush is torn at ANY point of ANY write order (before the leaf of `t` is written: the data file still has
+the empty page of the checkpoint; after it: the page carries LSN 12 and row ids 11, 12 while the header
+says `lastKey = 10`, `nextLSN = 10`).  Recovery succeeds and ends checkpointed for the plain database
+with the rows `(7)`, `(6)`. -/
+theorem C04_torn_flush_example : ∃ db2,
+    SpecRun schT tableDB sdbA0
+      [.insert tname [] [[.int 5], [.int 6]], .update tname [([97], .lit (.int 7))] (some (condEq 5))] db2 sdbA2 ∧
+    db2.store.hdr.nextFree = tableDB.store.hdr.nextFree ∧ db2.wal.length = 3 ∧
+    ∀ order j, ∃ dbR tblsR, Engine.recover { store := tornFlush db2.store order j, wal := db2.wal } [] [] = .ok dbR ∧
+      dbR.wal = db2.wal ∧ Ckpt schT dbR sdbA2 (clean ptT) (cleanT tblsR) := torn_example
+
+/-- **C04.torn_flush_between_two_dirty_pages_example** (non-vacuity with a data file of pages from two
+different moments, every state computed by the model): `CREATE DATABASE`; `CREATE TABLE t (a INT)`;
+`CREATE TABLE u (b INT)` (`tableDB2`: `create_table2_eq`, checkpointed: `ckpt_tableDB2`);
+`INSERT INTO t VALUES (5)`; `INSERT INTO u VALUES (8)` - two log records, no allocation, two dirty pages:
+12288 (leaf of `t`) and 16384 (leaf of `u`).  The flush is torn at ANY point of ANY write order, e.g.
+`order = [12288, 16384]`, `j = 1`: the leaf of `t` written, the leaf of `u` not; or `order = [16384, 12288]`,
+`j = 1`: the page of the LATER record in the file, the page of the earlier one not.  Recovery succeeds and
+ends checkpointed for the plain database with `(5)` in `t` and `(8)` in `u`. -/
+theorem C04_torn_flush_between_two_dirty_pages_example :
+    evalStmt tableDB [] (.createTable uname bcolsI) = .ok () tableDB2 ∧
+    Ckpt schU tableDB2 sdbU0 ptU [(tname, tT), (uname, uT)] ∧
+    ∃ db2,
+      SpecRun schU tableDB2 sdbU0 [.insert tname [] [[.int 5]], .insert uname [] [[.int 8]]] db2 sdbU2 ∧
+      db2.store.hdr.nextFree = tableDB2.store.hdr.nextFree ∧ db2.wal.length = 2 ∧
+      (db2.store.mem.filter fun p => p.2.dirty).map (·.1) = [12288, 16384] ∧
+      ∀ order j, ∃ dbR tblsR, Engine.recover { store := tornFlush db2.store order j, wal := db2.wal } [] [] = .ok dbR ∧
+        dbR.wal = db2.wal ∧ Ckpt schU dbR sdbU2 (clean ptU) (cleanT tblsR) :=
+  ⟨create_table2_eq, ckpt_tableDB2, torn_example2⟩
+
+/-- **C04.rounds_with_torn_flushes**: any number of rounds, each `statements ; complete flush`,
+`statements ; crash with nothing flushed ; recovery`, or `statements that allocate no page ; flush torn
+at any point ; recovery` (`RoundsT`), from a checkpointed database end in a checkpointed database for the
+plain database of ALL statements acknowledged so far; and after any such history a further torn flush
+(no allocation since the last round) is recovered. -/
+theorem C04_rounds_with_torn_flushes {sch : Levels} {db db1 : Engine.DB} {sdb sdb1 : Spec.SDB}
+    {pt : Levels} {tbls : List (Bytes × Levels)} (h : Ckpt sch db sdb pt tbls)
+    (hist : RoundsT sch db sdb db1 sdb1) :
+    (∃ pt1 tbls1, Ckpt sch db1 sdb1 pt1 tbls1) ∧
+    ∀ (dbN : Engine.DB) (sdbN : Spec.SDB) (stmts : List EStmt), SpecRun sch db1 sdb1 stmts dbN sdbN →
+      dbN.store.hdr.nextFree = db1.store.hdr.nextFree → ∀ (order : List Nat) (j : Nat) (o1 o2 : List Nat),
+      ∃ db2, Engine.recover { store := tornFlush dbN.store order j, wal := dbN.wal } o1 o2 = .ok db2 ∧
+        RoundsT sch db sdb db2 sdbN ∧ ∃ pt2 tbls2, Ckpt sch db2 sdbN pt2 tbls2 :=
+  ⟨roundsT_ckpt hist h, fun _ _ _ run hnf order j o1 o2 => roundsT_torn_recovers h hist run hnf order j o1 o2⟩
+
+/-- non-vacuity: the torn round of `C04_torn_flush_example` is a `RoundsT` history from the checkpointed
+`tableDB` -/
+example : ∃ db2, RoundsT schT tableDB sdbA0 db2 sdbA2 := by
+  obtain ⟨dbN, run, hnf, _, hrec⟩ := torn_example
+  obtain ⟨dbR, _, e, _⟩ := hrec [12288] 1
+  exact ⟨dbR, .torn .nil run hnf e⟩
+
+/-- **C04.any_mixture_of_boundary_pages_recovers** (`Redo.Image` for the concrete recovery model and real
+logs: several flushes, torn anywhere).  `db` is checkpointed; statements take it through the boundary
+databases `mids` to `dbN` (`SpecRunsNA`: a chain of `SpecRun`s; the allocation frontier at every boundary
+is the one of `db`: no page allocated); `r0` is ANY data file such that at every page offset of the catalog
+description of `db` (page table, `sys_schema`, every page of every user table) it holds the page object
+that SOME database among `db :: mids` showed at that offset - independently per page: the checkpoint's
+page, the page as of any later statement boundary, the final one -, under a header with the allocation
+frontier and catalog root of `db` and counters not behind `db`'s (the header of the checkpoint or of
+any later complete write).  `Engine.recover` on `r0` with the log of `dbN` succeeds, keeps the log, and
+ends checkpointed for the plain database `sdbN` of ALL acknowledged statements; allocation frontier and
+catalog root are the live ones, the counters are not behind the live ones.
+`C04_torn_flush_without_allocation_recovers` is the case `mids = [dbN]`, every page the checkpoint's or
+the final one. -/
+theorem C04_any_mixture_of_boundary_pages_recovers {sch : Levels} {db dbN : Engine.DB} {sdb sdbN : Spec.SDB}
+    {mids : List Engine.DB} {pt : Levels} {tbls : List (Bytes × Levels)} (h : Ckpt sch db sdb pt tbls)
+    (runs : SpecRunsNA sch db sdb mids dbN sdbN) (r0 : Store)
+    (hnf0 : r0.dhdr.nextFree = db.store.hdr.nextFree) (hpr0 : r0.dhdr.ptRoot = db.store.hdr.ptRoot)
+    (hlk0 : db.store.hdr.lastKey ≤ r0.dhdr.lastKey) (hls0 : db.store.hdr.nextLSN ≤ r0.dhdr.nextLSN)
+    (himg : ∀ x ∈ catTrees pt sch tbls, ∀ e ∈ flatten x, ∃ dbm ∈ db :: mids, ∃ n d,
+      view dbm.store e.1 = some (n, d) ∧ assocGet r0.disk e.1 = some n)
+    (o1 o2 : List Nat) :
+    ∃ db' tblsL, Engine.recover { store := r0, wal := dbN.wal } o1 o2 = .ok db' ∧
+      db'.wal = dbN.wal ∧ AbsV dbN.store pt sch tblsL sdbN ∧ Ckpt sch db' sdbN (clean pt) (cleanT tblsL) ∧
+      db'.store.hdr.nextFree = dbN.store.hdr.nextFree ∧ dbN.store.hdr.lastKey ≤ db'.store.hdr.lastKey ∧
+      db'.store.hdr.ptRoot = dbN.store.hdr.ptRoot ∧ dbN.store.hdr.nextLSN ≤ db'.store.hdr.nextLSN :=
+  h.image_round runs r0 hnf0 hpr0 hlk0 hls0 himg o1 o2
+
+/-- **C04.mixed_image_example** (non-vacuity of the theorem above, every database computed by the model):
+from `tableDB2`: `INSERT INTO t VALUES (5)` (`db1`); `INSERT INTO u VALUES (8)` (`db2`);
+`UPDATE t SET a = 7 WHERE a = 5` (`db3`).  The data file `mixedImage db1 db3` has the catalog pages of the
+checkpoint, the leaf of `t` as `db1` showed it - neither the checkpoint's (empty) nor the final one (`(7)`) -
+and the leaf of `u` as `db3` showed it, under the header of the checkpoint: pages of three moments, a file
+no single torn flush leaves.  All hypotheses hold; recovery succeeds and ends checkpointed for the plain
+database with `(7)` in `t` and `(8)` in `u`. -/
+theorem C04_mixed_image_example : ∃ db1 db2 db3,
+    SpecRunsNA schU tableDB2 sdbU0 [db1, db2, db3] db3 sdbU3 ∧ db3.wal.length = 3 ∧
+    (∀ x ∈ catTrees ptU schU [(tname, tT), (uname, uT)], ∀ e ∈ flatten x, ∃ dbm ∈ [tableDB2, db1, db2, db3], ∃ n d,
+      view dbm.store e.1 = some (n, d) ∧ assocGet (mixedImage db1 db3).disk e.1 = some n) ∧
+    ∃ dbR tblsR, Engine.recover { store := mixedImage db1 db3, wal := db3.wal } [] [] = .ok dbR ∧
+      dbR.wal = db3.wal ∧ Ckpt schU dbR sdbU3 (clean ptU) (cleanT tblsR) := image_example
+
+/-- **C04.live_run_without_allocation_is_page_local**: a live run of row statements (`LiveRunM`: what
+every `SpecRun` is, `spec_run_live`) whose final allocation frontier is the initial one is a history
+`Hist` of page-local steps over the frozen skeleton of the catalog description it starts from: one
+record per step; an INSERT record appends its cell to the last leaf of its table, an UPDATE / DELETE
+record rewrites the cell in the leaf it names; `c j o` is the leaf page at offset `o` after `j` records;
+the descriptions along the run are `fillT (c j) tbls`; the final row-id counter is the initial one or
+the key of a logged INSERT. -/
+theorem C04_live_run_without_allocation_is_page_local (sch : Levels) {s sN : Store}
+    {tbls tblsN : List (Bytes × Levels)} {stmts : List RStmt} {logs : List WalRec}
+    (run : LiveRunM sch s tbls stmts sN tblsN logs) (pt : Levels)
+    (h : Cat s pt sch tbls) (hf : FreshM s tbls) (hnf : sN.hdr.nextFree = s.hdr.nextFree) :
+    ∃ c : Nat → Pages, Hist pt sch tbls s.hdr.nextFree sN.hdr.lastKey logs c ∧ fillT (c 0) tbls = tbls ∧
+      tblsN = fillT (c logs.length) tbls ∧ Cat sN pt sch tblsN ∧ FreshM sN tblsN ∧
+      (sN.hdr.lastKey = s.hdr.lastKey ∨ ∃ r ∈ logs, r.op = c_OpInsert ∧ r.cell = sN.hdr.lastKey) ∧
+      s.hdr.lastKey ≤ sN.hdr.lastKey :=
+  live_run_hist sch run pt h hf hnf
+
+/-- **C04.replay_over_any_mixture_of_page_versions** (the general form, about `replayAll` itself: every
+placement of page writes, as in `Redo.Image`, for real logs).  `H`: a history of page-local steps
+(`C04_live_run_without_allocation_is_page_local`) with log `log`; `k o ≤ log.length` arbitrary: the
+number of records the page at leaf offset `o` had seen when it was last written - independently per
+page: never written, written by a flush torn anywhere, written by an eviction at any moment.  `r0` is a
+freshly opened store (`mem = []`) whose data file holds the frozen catalog and, at each leaf offset `o`,
+the page as of moment `k o` (`OnDisk … (fillT (img c k) D0)`), with the allocation frontier and catalog
+root of the history and ANY row-id counter that, together with the logged INSERT keys, reaches `K`.
+The replay of `old ++ log` (`old`: records applied at the start of the history, e.g. the log before the
+checkpoint) runs to its end without error; the store then holds the catalog with the leaf pages of the
+END of the history (`c log.length`; `ρ` = which of them are dirty); a page left clean is the page of the
+data file; the data file is untouched; the counters have passed every LSN and every INSERT key of the
+log.  (That the catalog invariant - which bounds every key by the row-id counter - is false of the
+store recovery starts from is bridged by `replayAll_raiseKey`: the replay commutes with raising the
+counter.) -/
+theorem C04_replay_over_any_mixture_of_page_versions {pt sch : Levels} {D0 : List (Bytes × Levels)} {nf K : Nat}
+    {log : List WalRec} {c : Nat → Pages} (H : Hist pt sch D0 nf K log c) (hself : PtSelf pt) (k : Nat → Nat)
+    (hk : ∀ o, k o ≤ log.length) (old : List WalRec) (hold : ∀ r ∈ old, AppliedC pt sch (fillT (c 0) D0) r)
+    (r0 : Store) (hmem : r0.mem = []) (hdisk : OnDisk r0 pt sch (fillT (img c k) D0))
+    (hnf : r0.hdr.nextFree = nf) (hpr : rootOff pt = r0.hdr.ptRoot)
+    (hK : K ≤ r0.hdr.lastKey ∨ ∃ r ∈ old ++ log, r.op = c_OpInsert ∧ r.cell = K) :
+    ∃ (rN : Store) (ρ : Nat → Bool), replayAll (old ++ log) r0 = (rN, none, false) ∧
+      Cat rN pt sch (fillT (fun o => ((c log.length o).1, ρ o)) D0) ∧ rN.hdr.nextFree = nf ∧
+      (∀ o, ρ o = false → (c log.length o).1 = (c (k o) o).1) ∧
+      rN.disk = r0.disk ∧ rN.dhdr = r0.dhdr ∧ MemFiled rN ∧
+      (∀ r ∈ old ++ log, r.lsn ≤ rN.hdr.nextLSN) ∧
+      (∀ r ∈ old ++ log, r.op = c_OpInsert → r.cell ≤ rN.hdr.lastKey) ∧ r0.hdr.lastKey ≤ rN.hdr.lastKey ∧
+      r0.hdr.nextLSN ≤ rN.hdr.nextLSN :=
+  torn_image_replay H hself k hk old hold r0 hmem hdisk hnf hpr hK
+
+/-- non-vacuity: the run of `C04_torn_flush_example` is such a history, of three records -/
+example : ∃ (db2 : Engine.DB) (logs : List WalRec) (c : Nat → Pages),
+    Hist ptT schT [(tname, tT)] tableDB.store.hdr.nextFree db2.store.hdr.lastKey logs c ∧ logs.length = 3 ∧
+    db2.wal = logs := torn_hist_example
+
+/-- **C04.replay_does_not_read_the_row_id_counter**: `replayAll` commutes with raising the row-id counter
+of the store it starts from: same outcome, same pages, same other counters; the row-id counter of the
+result raised by the same amount.  (On a torn image the pages hold row ids beyond the counter of the
+header; recovery neither trips over that nor depends on it.) -/
+theorem C04_replay_does_not_read_the_row_id_counter (log : List WalRec) (s : Store) (K : Nat) :
+    replayAll log (raiseKey s K) = (raiseKey (replayAll log s).1 K, (replayAll log s).2) :=
+  replayAll_raiseKey log s K
+
+end Mkdb.Store
